@@ -14,6 +14,7 @@ The formulas are the generated ones (`Gen.Constraints`), polymorphic in the scal
 `drivers/C17.lean`, reasoned about at `ℝ` in `Props/C17.lean`.  Core Lean only.
 -/
 import GPVerif.Gen.Constraints
+import GPVerif.Model.InitIR
 
 namespace ParamStore
 open Gen.Constraints
@@ -118,5 +119,248 @@ def Store.apply (s : Store α) : Op α → Store α × Bool
 def Store.run (s : Store α) : List (Op α) → Store α
   | [] => s
   | op :: ops => (s.apply op).1.run ops
+
+/-! ## Dotted names: module trees and `Module.initialize(**kwargs)`
+
+A module tree gives meaning to the (possibly dotted) names handed to `initialize`: a plain name of a module is
+either a public property with a setter (`lengthscale` → `.set p`) or a registered raw parameter
+(`raw_lengthscale` → `.initRaw p`); a dotted name `a.b.x` descends through `_modules` (`nn.ModuleList` children are
+addressed by their index segment).  Name segments are `Nat` ids (the harness interns the strings).
+
+* `resolve` / `assign1` — the **specification** of one assignment `initialize(**{name: v})`;
+* `initFold` — the specification of `initialize(**kwargs)`: the left fold of the single assignments in
+  `kwargs` order, stopping at the first one that raises (what it stored before stays stored);
+* `Init.exec prog` — the semantics of the program **regenerated** from `Module.initialize`'s body
+  (`Gen/InitDispatch.lean`, syntax `Model/InitIR.lean`).  `Props/C17.lean :: gen_initialize_eq_fold` proves
+  `Init.exec Gen.InitDispatch.initializeProg = initFold`.
+-/
+
+abbrev Path := List Nat
+
+/-- what a plain name of one module denotes -/
+inductive Target where
+  | pub (p : Nat)   -- property with setter: `setattr(self, name, v)` = `_set_<p>(v)` = `Op.set p v`
+  | raw (p : Nat)   -- registered parameter: bound check + copy = `Op.initRaw p v`
+  deriving Repr, DecidableEq
+
+/-- a tree of modules as `initialize` sees it -/
+inductive Node where
+  | none                                                       -- no such sub-module (or not a gpytorch `Module`)
+  | list (elem : Nat → Node)                                   -- `nn.ModuleList` (children by index segment)
+  | mod (leaf : Nat → Option Target) (child : Nat → Node)      -- gpytorch `Module`: plain names, `_modules`
+
+def Node.child : Node → Nat → Node
+  | .none, _ => .none
+  | .list e, i => e i
+  | .mod _ c, x => c x
+
+def Node.isList : Node → Bool
+  | .list _ => true
+  | _ => false
+
+def Node.isNone : Node → Bool
+  | .none => true
+  | _ => false
+
+/-- plain-name lookup (`hasattr(self, name)` and what kind of attribute it is) -/
+def Node.leafOf : Node → Path → Option Target
+  | .mod leaf _, [x] => leaf x
+  | _, _ => Option.none
+
+/-- follow an access path of sub-module names -/
+def Node.descend : Node → Path → Node
+  | n, [] => n
+  | n, x :: rest => (n.child x).descend rest
+
+/-- **specification**: the parameter a (dotted) name denotes, seen from module `n`; `none` = the call raises
+(`AttributeError` unknown name / module, `ValueError`/`IndexError` for a malformed `ModuleList` address) -/
+def resolve : Node → Path → Option Target
+  | _, [] => Option.none
+  | n, [x] => n.leafOf [x]
+  | n, x :: y :: rest =>
+    match n with
+    | .mod _ child =>
+      match child x with
+      | .none => Option.none
+      | .list elem =>
+        (match rest with
+         | [] => Option.none
+         | _ :: _ => resolve (elem y) rest)
+      | .mod l c => resolve (.mod l c) (y :: rest)
+    | _ => Option.none
+
+/-- leaf action of `initialize` on a resolved name -/
+def Store.assignTarget (s : Store α) (t : Option Target) (v : α) : Store α × Bool :=
+  match t with
+  | some (.pub p) => s.apply (.set p v)
+  | some (.raw p) => s.apply (.initRaw p v)
+  | Option.none => (s, true)
+
+/-- **specification** of `initialize(**{name: v})` -/
+def assign1 (n : Node) (s : Store α) (kv : Path × α) : Store α × Bool :=
+  s.assignTarget (resolve n kv.1) kv.2
+
+/-- **specification** of `initialize(**kwargs)`: fold of the single assignments, in order, up to the first raise -/
+def initFold (n : Node) : Store α → List (Path × α) → Store α × Bool
+  | s, [] => (s, false)
+  | s, kv :: rest =>
+    let r := assign1 n s kv
+    if r.2 then r else initFold n r.1 rest
+
+/-- **specification** of what parameter `q` reads after `initialize(**kwargs)` when nothing raises: the value of the
+LAST pair of `kwargs` that denotes `q` (a public name stores the value itself, a raw name stores the raw value, which
+reads through the transform); `none` = no pair denotes `q` -/
+def lastRead (n : Node) (kind : Nat → Kind α) : List (Path × α) → Nat → Option α
+  | [], _ => Option.none
+  | kv :: rest, q =>
+    match lastRead n kind rest q with
+    | some v => some v
+    | Option.none =>
+      match resolve n kv.1 with
+      | some (.pub p) => if p = q then some kv.2 else Option.none
+      | some (.raw p) => if p = q then some ((kind q).transform kv.2) else Option.none
+      | Option.none => Option.none
+
+namespace Init
+open InitIR
+
+/-- local variables of one loop iteration -/
+structure Loc (α : Type) where
+  name : Path
+  val : α
+  mod : Node                   -- `module`
+  ref : Path                   -- access path of `module` from `self` (its identity as key of the pending table)
+  idx : Option Nat             -- `idx`
+  regs : List (Nat × Bool)     -- the Boolean registers of the `if` conditions
+  skip : Bool                  -- `continue` was executed
+
+/-- state that survives the iterations -/
+structure St (α : Type) where
+  store : Store α
+  pending : List (Path × List (Path × α))    -- the dict of deferred child kwargs, in insertion order
+  raised : Bool
+
+def guardHolds (regs : List (Nat × Bool)) (g : List (Nat × Bool)) : Bool :=
+  g.all fun rb => regs.lookup rb.1 == some rb.2
+
+def evalCond (l : Loc α) : Cond → Bool
+  | .dotted => decide (2 ≤ l.name.length)
+  | .moduleIsList => l.mod.isList
+
+/-- `D[key] = [kv]` (overwrite) / `D.setdefault(key, {})[name] = v` (merge), keeping dict insertion order -/
+def upsert (merge : Bool) (key : Path) (kv : Path × α) :
+    List (Path × List (Path × α)) → List (Path × List (Path × α))
+  | [] => [(key, [kv])]
+  | (k, kws) :: rest =>
+    if k = key then (k, if merge then kws ++ [kv] else [kv]) :: rest
+    else (k, kws) :: upsert merge key kv rest
+
+abbrev Call (α : Type) := Node → Store α → List (Path × α) → Store α × Bool
+
+def raise (l : Loc α) (st : St α) : Loc α × St α := (l, { st with raised := true })
+
+/-- run the pending child calls in insertion order, stopping at the first raise -/
+def flush (self : Node) (call : Call α) : Store α → List (Path × List (Path × α)) → Store α × Bool
+  | s, [] => (s, false)
+  | s, (ref, kws) :: rest =>
+    let r := call (self.descend ref) s kws
+    if r.2 then r else flush self call r.1 rest
+
+def step (self : Node) (call : Call α) (a : Act) (l : Loc α) (st : St α) : Loc α × St α :=
+  match a with
+  | .intToFloat => (l, st)
+  | .validatePrior => (l, st)
+  | .test r c => ({ l with regs := (r, evalCond l c) :: l.regs }, st)
+  | .splitModule =>
+    match l.name with
+    | x :: y :: tl =>
+      if (self.child x).isNone then raise l st
+      else ({ l with mod := self.child x, ref := [x], name := y :: tl }, st)
+    | _ => raise l st
+  | .splitIndex =>
+    match l.name with
+    | i :: y :: tl => ({ l with idx := some i, name := y :: tl }, st)
+    | _ => raise l st
+  | .selectIndexed =>
+    match l.idx with
+    | some i =>
+      if l.mod.isList && !(l.mod.child i).isNone then ({ l with mod := l.mod.child i, ref := l.ref ++ [i] }, st)
+      else raise l st
+    | Option.none => raise l st
+  | .callChild indexed =>
+    let target : Node :=
+      if indexed then
+        (match l.idx with
+         | some i => if l.mod.isList then l.mod.child i else .none
+         | Option.none => .none)
+      else l.mod
+    let r := call target st.store [(l.name, l.val)]
+    (l, { st with store := r.1, raised := r.2 })
+  | .deferStore merge => (l, { st with pending := upsert merge l.ref (l.name, l.val) st.pending })
+  | .continue_ => ({ l with skip := true }, st)
+  | .leaf =>
+    let r := st.store.assignTarget (self.leafOf l.name) l.val
+    (l, { st with store := r.1, raised := r.2 })
+  | .flushDeferred =>
+    let r := flush self call st.store st.pending
+    (l, { st with store := r.1, pending := [], raised := r.2 })
+
+def runStmts (self : Node) (call : Call α) : List Stmt → Loc α → St α → Loc α × St α
+  | [], l, st => (l, st)
+  | s :: rest, l, st =>
+    if st.raised || l.skip then (l, st)
+    else if guardHolds l.regs s.guard then
+      let r := step self call s.act l st
+      runStmts self call rest r.1 r.2
+    else runStmts self call rest l st
+
+/-- one iteration of `for name, val in kwargs.items()` -/
+def iter (self : Node) (call : Call α) (body : List Stmt) (st : St α) (kv : Path × α) : St α :=
+  (runStmts self call body ⟨kv.1, kv.2, .none, [], Option.none, [], false⟩ st).2
+
+def loop (self : Node) (call : Call α) (body : List Stmt) : St α → List (Path × α) → St α
+  | st, [] => st
+  | st, kv :: rest => if st.raised then st else loop self call body (iter self call body st kv) rest
+
+/-- statements after the loop: only unguarded `flushDeferred` is in the vocabulary -/
+def runEpilogue (self : Node) (call : Call α) : List Stmt → St α → St α
+  | [], st => st
+  | s :: rest, st =>
+    if st.raised then st
+    else match s.guard, s.act with
+      | [], .flushDeferred =>
+        let r := flush self call st.store st.pending
+        runEpilogue self call rest { st with store := r.1, pending := [], raised := r.2 }
+      | _, _ => { st with raised := true }
+
+/-- `self.initialize(**kwargs)` with `fuel` bounding the nesting of child calls -/
+def execFuel (prog : Program) : Nat → Node → Store α → List (Path × α) → Store α × Bool
+  | 0, _, s, _ => (s, true)
+  | fuel + 1, self, s, kvs =>
+    match self with
+    | .mod _ _ =>
+      let st := loop self (execFuel prog fuel) prog.body ⟨s, [], false⟩ kvs
+      let st := runEpilogue self (execFuel prog fuel) prog.epilogue st
+      (st.store, st.raised)
+    | _ => (s, true)
+
+/-- longest name of a kwargs list (every child call receives strictly shorter names) -/
+def maxLen : List (Path × α) → Nat
+  | [] => 0
+  | kv :: rest => max kv.1.length (maxLen rest)
+
+/-- semantics of the translated `Module.initialize` -/
+def exec (prog : Program) (self : Node) (s : Store α) (kvs : List (Path × α)) : Store α × Bool :=
+  execFuel prog (maxLen kvs + 1) self s kvs
+
+/-- the Tensor / float branch of the leaf chain: statements in source order; the bound check (`raises` = the
+generated guard as a function of `check_raw(val)`) tests the value handed in, `store` writes it -/
+def runLeafSteps (raises : Bool → Bool) : List LeafStep → Store α → Nat → α → Store α × Bool
+  | [], s, _, _ => (s, false)
+  | .check :: rest, s, p, r =>
+    if raises (decide ((s.kind p).CheckRaw r)) then (s, true) else runLeafSteps raises rest s p r
+  | .store :: rest, s, p, r => runLeafSteps raises rest (s.setRaw p r) p r
+
+end Init
 
 end ParamStore
